@@ -31,11 +31,19 @@ def sh(cmd, cwd=None, env=None, timeout=900):
 
 def main():
     src, name, wt = sys.argv[1], sys.argv[2], sys.argv[3]
+    phase = sys.argv[4] if len(sys.argv) > 4 else 'all'     # all | confirm | checks (after a confirm run)
+    cfile = os.path.join(src, 'confirmed.json')
     patch = os.path.join(src, 'patch.diff')
     meta = {'name': name, 'kind': 'behaviour-preserving refactoring', 'source': 'independent sub-agent given only the property text and a scratch worktree'}
     sh('git -C %s checkout -- .' % wt)
     assert sh('git -C %s rev-parse HEAD' % wt)[1] == sh('git -C /repo rev-parse HEAD')[1], 'worktree not at /repo HEAD'
-    try:
+    if phase == 'checks':
+        meta['confirmed'] = json.load(open(cfile))
+        if not (meta['confirmed']['tests_pass'] and 'All tests passing' in meta['confirmed']['spec_corpus']):
+            print(name, 'not confirmed')
+            return 1
+    else:
+      try:
         rc, out = sh('git apply %s' % patch, cwd=wt)
         if rc != 0:
             print(name, 'PATCH DOES NOT APPLY', out[:200])
@@ -45,20 +53,25 @@ def main():
         rcs, outs = sh('%s -m test.specification' % PY, cwd=wt, env=env, timeout=300)
         ok = rct == 0 and 'All tests passing' in outs
         meta['confirmed'] = {'tests_pass': rct == 0, 'spec_corpus': outs.strip().splitlines()[-1][:60] if outs.strip() else ''}
+        json.dump(meta['confirmed'], open(cfile, 'w'))
         print('%s confirm: tests=%s spec=%s' % (name, rct, 'ok' if 'All tests passing' in outs else 'FAIL'))
         if not ok:
             return 1
-    finally:
+      finally:
         sh('git -C %s checkout -- .' % wt)
+    if phase == 'confirm':
+        return 0
     m = json.load(open(os.path.join(VERIF, 'MANIFEST.json')))
     alarms = {}
     rc, out = sh('git -C /repo apply %s' % patch)
     assert rc == 0, out
     try:
         ev = tempfile.mkdtemp(prefix='benign_ev_')
-        for c in m['checks']:
-            pid = c['property_id']
-            rc, out = sh('%s check %s --tier quick --evidence-dir %s' % (PY, pid, ev), cwd=VERIF, timeout=600)
+        from concurrent.futures import ThreadPoolExecutor
+        pids = [c['property_id'] for c in m['checks']]
+        with ThreadPoolExecutor(16) as ex:
+            res = list(ex.map(lambda pid: sh('%s check %s --tier quick --evidence-dir %s' % (PY, pid, ev), cwd=VERIF, timeout=600), pids))
+        for pid, (rc, out) in zip(pids, res):
             if rc != 0:
                 lines = [l for l in out.splitlines() if 'VIOLATION' in l or 'ANALYSIS-ERROR' in l or '[R-' in l or '[D-' in l]
                 alarms[pid] = {'exit': rc, 'lines': lines[:8]}
